@@ -7,7 +7,7 @@
 //
 // Edits:
 //   - sync.Mutex / sync.RWMutex / sync.Pool -> rt.Mutex / rt.RWMutex / rt.Pool (all instrumented files)
-//   - os.WriteFile/ReadFile/OpenFile/Create/Open/Remove/Rename, os.File -> rt.* (cdr/cdrFile, internal/cgf, internal/sbi/processor)
+//   - os.WriteFile/ReadFile/OpenFile/Create/Open/CreateTemp/Remove/Rename/Stat/Lstat/Chmod/Mkdir(All), os.File -> rt.* (cdr/cdrFile, internal/cgf, internal/sbi/processor)
 //   - rt.Yield(<site>) before statements                               (yield packages, when -yields)
 //   - package-level variables initialised with a channel, timer, ticker, condition variable or
 //     context (objects that belong to the bubble they were made in) are made again at the start
@@ -47,7 +47,7 @@ var (
 
 // the part of package os that the CDR file code may use; everything listed exists in rt
 var fileAPI = map[string]bool{"WriteFile": true, "ReadFile": true, "OpenFile": true, "Create": true, "Open": true,
-	"Remove": true, "Rename": true, "File": true}
+	"Remove": true, "Rename": true, "File": true, "CreateTemp": true, "Stat": true, "Lstat": true, "Chmod": true, "MkdirAll": true, "Mkdir": true}
 
 func under(rel string, dirs []string) bool {
 	for _, d := range dirs {
